@@ -117,9 +117,10 @@ def r1_escape(ctx):
     if fn is None:
         r.missing("push_js_str")
         return r
-    from rules import dtable
+    from rules import dtable, absint as _ai
+    _ai.set_program(ctx.ast)
     params = fn.params()
-    ok, problems, facts_ = dtable.escaper_spec(fn.body, params[1] if len(params) > 1 else "s", "js-in-script")
+    ok, problems, facts_ = dtable.escaper_spec(fn.body, params[1] if len(params) > 1 else "s", "js-in-script", fn=fn)
     if ok:
         r.inst("push_js_str", "for each of %d character classes the text written decodes (as a JS string) to exactly that character" % facts_["classes"])
         r.inst("push_js_str '<' U+2028 U+2029", "never written raw: `</script>` / `<!--` cannot appear, no raw line separators")
